@@ -485,7 +485,8 @@ def run_threads(trace, rng=None):
                 except Exception:  # noqa: BLE001
                     pass
         fns.append(background)
-    with sched.Steps(sched=baton) as st:
+    # (step budget: a livelock among the clients ends as a StepBudgetExceeded death of a client, not as a hang)
+    with sched.Steps(budget=3_000_000, sched=baton) as st:
         done = baton.run(fns)
     out = []
     for c in done[: len(hists)]:
